@@ -121,14 +121,15 @@ structure WF (m B : Nat) (s : St) : Prop where
   bO : ∀ j, nth s.old j ≤ B
 
 /-- closing step of the value-level goals: the same cell value up to the order of the operands of `min` / `+` -/
+theorem natMin_eq (a b : Nat) : Nat.min a b = min a b := rfl
+
 macro "ukk_close" : tactic =>
   `(tactic| first
     | done
     | omega
+    | (refine congrArg (fun v => two _ (List.set _ _ v) _) ?_; (try simp only [natMin_eq]); omega)
     | (congr 1 <;> omega)
-    | (congr 2 <;> omega)
-    | (congr 3 <;> omega)
-    | (congr 4 <;> omega))
+    | (congr 2 <;> omega))
 
 section
 variable (cost : Nat → Nat → Nat) (hcost : ∀ a b, cost a b < 2 ^ 32)
